@@ -47,6 +47,7 @@ static ObjectHeaderBase * make(int i) {
     return o;
 }
 
+extern "C" int uncompress(unsigned char * dest, unsigned long * destLen, const unsigned char * src, unsigned long n);
 static uint32_t rd32(const unsigned char * p) { uint32_t v; memcpy(&v, p, 4); return v; }
 static uint16_t rd16(const unsigned char * p) { uint16_t v; memcpy(&v, p, 2); return v; }
 static uint64_t rd64(const unsigned char * p) { uint64_t v; memcpy(&v, p, 8); return v; }
@@ -64,10 +65,12 @@ extern "C" void h_session() {
         f.compressionLevel = CFG_LEVEL;
         f.setDefaultLogContainerSize(CFG_CONTAINER);
         f.writeRestorePoints = CFG_RESTORE != 0;
+#ifndef HEADER_AFTER_OPEN
         f.fileStatistics.applicationId = appId; f.fileStatistics.compressionLevel = hdrLevel;
         f.fileStatistics.applicationMajor = appMajor; f.fileStatistics.applicationMinor = appMinor;
         f.fileStatistics.apiNumber = apiNumber; f.fileStatistics.applicationBuild = appBuild;
         f.fileStatistics.measurementStartTime.year = year; f.fileStatistics.lastObjectTime.milliseconds = ms;
+#endif
         ObjectHeaderBase * objs[NOBJ];
         catLen = 0;
         for (int i = 0; i < NOBJ; i++) {
@@ -80,6 +83,16 @@ extern "C" void h_session() {
         if (containerSize * CONTAINER_DIVIDES_PAYLOAD != static_cast<uint32_t>(catLen)) containerSize = static_cast<uint32_t>(catLen);
         f.setDefaultLogContainerSize(containerSize);
 #endif
+#ifdef LAST_PADDING_AT_BOUNDARY
+        // the data of the last object ends exactly at a container boundary, its (objectSize % 4) padding lies behind it
+        {
+            uint32_t pad = rd32(enc[NOBJ - 1] + 8) % 4;
+            VP_ASSERT(pad != 0);
+            containerSize = static_cast<uint32_t>((catLen - pad) / LAST_PADDING_AT_BOUNDARY);
+            if (containerSize * LAST_PADDING_AT_BOUNDARY != static_cast<uint32_t>(catLen - pad)) containerSize = static_cast<uint32_t>(catLen - pad);
+            f.setDefaultLogContainerSize(containerSize);
+        }
+#endif
 #ifdef SCALE_THRESHOLDS
         // scaled-down back-pressure thresholds (the API fixes them at 10 objects / >= 128 KiB): the workers and the
         // application really block on full queue / full stream in a session of a few objects
@@ -89,6 +102,10 @@ extern "C" void h_session() {
         VP_ASSERT(f.is_open());
         for (int i = 0; i < NOBJ; i++) {
             f.write(objs[i]);
+#ifdef POLL_STATE
+            // the application polls the stream state while the workers run (documented API)
+            { volatile bool g_ = f.good(), e_ = f.eof(); (void)g_; (void)e_; }
+#endif
 #ifdef GROW_CONTAINER_DURING_WRITE
             // documented API, used in the middle of a write session: the container size is changed while the workers run
             if (i == GROW_CONTAINER_DURING_WRITE) f.setDefaultLogContainerSize(CFG_CONTAINER * 3);
@@ -97,6 +114,18 @@ extern "C" void h_session() {
             vp_yield();          // a slow producer (live logging): the workers drain everything and wait in between
 #endif
         }
+#ifdef APP_RESTORE_POINT
+        // the application writes a restore point object (type 115) of its own; the format counts it neither on the write nor
+        // on the read side
+        { RestorePointContainer * r = new RestorePointContainer; r->data.resize(4); vp_bytes(r->data.data(), 4, "rp"); f.write(r); }
+#endif
+#ifdef HEADER_AFTER_OPEN
+        // header fields assigned during the session (the last object time is only known at the end)
+        f.fileStatistics.applicationId = appId; f.fileStatistics.compressionLevel = hdrLevel;
+        f.fileStatistics.applicationMajor = appMajor; f.fileStatistics.applicationMinor = appMinor;
+        f.fileStatistics.apiNumber = apiNumber; f.fileStatistics.applicationBuild = appBuild;
+        f.fileStatistics.measurementStartTime.year = year; f.fileStatistics.lastObjectTime.milliseconds = ms;
+#endif
         vp_sched_point("before_close");
         f.close();
         VP_ASSERT(!f.is_open());
@@ -106,6 +135,11 @@ extern "C" void h_session() {
         vp_assert(f.currentObjectCount == NOBJ, "C05: writer's running object count equals the number of objects written");
 #endif
     }
+#ifdef WRITE_ONLY_SESSION
+    vp_check_leaks();
+    vp_reach("h_session:end");
+    return;
+#endif
     long n = vp_fs_get("a.blf", img, sizeof img);
     vp_note("disk_size", static_cast<uint64_t>(n));
     vp_out(img, n, "file");
@@ -135,10 +169,13 @@ extern "C" void h_session() {
             if (payload + stored <= (long)sizeof inflated) memcpy(inflated + payload, c + 32, stored);
             payload += stored;
         } else {
-            // zlib contract model: 0x78, level, data, 4-byte sum
-            vp_assert(stored == usz + 6, "C04: deflate stream inflates to the declared size");
+            // inflate with zlib's uncompress (llsym: the contract model 0x78, level, data, 4-byte sum; native replay: real zlib)
+            unsigned long len = payload <= (long)sizeof inflated ? sizeof inflated - static_cast<unsigned long>(payload) : 0;
+            int zrc = uncompress(inflated + payload, &len, c + 32, stored);
+            vp_assert(zrc == 0 && len == usz, "C04: deflate stream inflates to the declared size");
+#ifndef VP_NATIVE_FS
             vp_assert(c[32] == 0x78 && c[33] == CFG_LEVEL, "C04: zlib header carries the configured level");
-            if (payload + usz <= (long)sizeof inflated) memcpy(inflated + payload, c + 34, usz);
+#endif
             payload += usz;
         }
         sumUncompressed += 32 + usz;
